@@ -674,15 +674,18 @@ def parsed_addend_rule(rep, fn):
     """R-WRAP: a number taken from the input by a text-to-number routine can be anything up to the type's maximum.  Added to a
     pointer first and compared with the end afterwards (`p = q + n; if (p > end)`), a huge n wraps the pointer past the end
     of the address space and the test passes.  Every pointer addition of such a value is dominated by a relational
-    comparison in which the value itself (not the sum) is compared with a size."""
+    comparison in which the value itself (not the sum) is compared with a size; the comparison lies after the parsing
+    assignment (a test of the same variable while it was a loop counter does not count)."""
     n = 0
     parsed = {}
+    parsed_at = {}
     for pos, root, x, ps in fn.nodes():
         if x.get("k") == "bin" and x["op"] == "=":
             y = core.strip_casts(x["y"])
             l = core.strip_casts(x["x"])
             if y is not None and y.get("k") == "call" and (y.get("fn") or "").startswith(NUM_PARSERS) and l.get("k") == "ref":
                 parsed[l["id"]] = l["n"]
+                parsed_at.setdefault(l["id"], set()).add(pos[0])
     if not parsed:
         return 0
     for pos, root, x, ps in fn.nodes():
@@ -701,6 +704,10 @@ def parsed_addend_rule(rep, fn):
             if c is None or bid == pos[0] and False:
                 continue
             if not fn.dominates(bid, pos[0]) or bid == pos[0]:
+                continue
+            # the test must see the parsed number: it lies at or after the parsing assignment (the variable may have served
+            # as a plain counter before it, and a comparison of the counter bounds nothing)
+            if not any(pb == bid or fn.dominates(pb, bid) for pb in parsed_at.get(tgt, ())):
                 continue
             for y, _ in walk(c):
                 if y.get("k") == "bin" and y["op"] in ("<", ">", "<=", ">="):
